@@ -802,3 +802,47 @@ func originValueIn(v ssa.Value, group []*ssa.Function) ssa.Value {
 	}
 	return v
 }
+
+// liftInstr: the instruction of root that stands for `in` when `in` sits in a helper of the
+// group: the (single) call site of that helper, transitively. With mustRun, `in` has to
+// dominate every return of its helper (it ran whenever the helper completed); without it the
+// lifted position only says "in runs no earlier than this call".
+func liftInstr(in ssa.Instruction, root *ssa.Function, grp []*ssa.Function, mustRun bool) ssa.Instruction {
+	for d := 0; d < 3 && in != nil && in.Parent() != root; d++ {
+		h := in.Parent()
+		if mustRun {
+			for _, ret := range returnsOf(h) {
+				if !instrDominates(in, ret) {
+					return nil
+				}
+			}
+		}
+		var site ssa.Instruction
+		n := 0
+		for _, g := range grp {
+			for _, c := range callsIn(g) {
+				if staticCallee(c) == h {
+					site = c
+					n++
+				}
+			}
+		}
+		if n != 1 {
+			return nil
+		}
+		in = site
+	}
+	return in
+}
+
+// runsBefore: a is executed before b on every path that reaches b (a, b possibly in helpers of root).
+func runsBefore(a, b ssa.Instruction, root *ssa.Function, grp []*ssa.Function) bool {
+	if a == nil || b == nil {
+		return false
+	}
+	if a.Parent() == b.Parent() {
+		return instrDominates(a, b)
+	}
+	la, lb := liftInstr(a, root, grp, true), liftInstr(b, root, grp, false)
+	return la != nil && lb != nil && la != lb && instrDominates(la, lb)
+}
